@@ -136,6 +136,8 @@ pub fn rates(property: &'static str) -> ReplCell {
         Op::Rm(0, TP),
         Op::Ins(0, TP),
         Op::Ins(0, TB),
+        Op::Rm(0, TO),
+        Op::Ins(0, TO),
     ];
     c.closure_rounds = 8;
     c
